@@ -120,7 +120,7 @@ def raw_invariant(prog, rep, be, rawinfo):
                     v = None
                 if not (isinstance(v, BV) and all(v.bit(j) == 0 for j in range(bpp, max(len(v.bits), v.width or 0)))):
                     bad2.append("%s builds %s directly from a value whose bits >= %d are not provably zero: %r" % (f.key(), adt_.split("::")[-1], bpp, v))
-    rep.floor("O0", "raw value constructions", n_agg, 18)
+    rep.floor("O0", "raw value constructions", n_agg, 7)   # at least one constructor per raw type
     rep.check(not bad2, "O0", "direct-construction", "a raw value built outside new / new_unmasked must be masked: %s" % "; ".join(bad2[:3]))
     rep.check(not bad and n_sites >= 1, "O0", "new_unmasked-callers", "new_unmasked (no masking) may only receive values that are masked already: %s" % "; ".join(bad[:3]))
 
